@@ -70,6 +70,9 @@ func runLift40(a *args) {
 			col.sample(map[string]interface{}{"vector": key, "family": what, "effective_class": c, "model_tenths": want})
 		}
 		switch prop {
+		case "C11":
+			col.count("realisations checked for one-decimal scores in range", 1)
+			checkTenth(col, prop, versions["4.0"], o, "score", got, p, msg, 0)
 		case "C04":
 			col.count("objects compared with the model score of their effective class", 1)
 			if p || got != float64(want)/10 {
